@@ -1670,3 +1670,58 @@ def exclusive_group_pairs(pattern, flags=0):
                 walk(av)
     walk(list(tree))
     return out
+
+
+def iteration_groups(pattern, flags=0):
+    """Named groups inside a repeat that may run more than once, split by
+    whether every iteration sets them.
+
+    Python keeps, for a group inside `( ... )*`, the text of the LAST
+    iteration in which the group took part.  A group every iteration must
+    pass through (`fresh`) therefore describes the last (rightmost)
+    iteration; a group some iterations skip (`stale`: optional, or in one
+    branch of an alternation) may still hold what an EARLIER iteration
+    captured.
+
+    Returns a list of (fresh_names, stale_names), one per outermost repeat.
+    """
+    tree = parse(pattern, flags)
+    names = {v: k for k, v in tree.state.groupdict.items()}
+    out = []
+
+    def inside(sub, optional, fresh, stale):
+        for op, av in sub:
+            if op is C.SUBPATTERN:
+                g, _a, _d, s2 = av
+                if g is not None and g in names:
+                    (stale if optional else fresh).add(names[g])
+                inside(s2, optional, fresh, stale)
+            elif op is C.BRANCH:
+                for alt in av[1]:
+                    inside(alt, True, fresh, stale)
+            elif op in REPEATS:
+                lo, _hi, s2 = av
+                inside(s2, optional or lo == 0, fresh, stale)
+            elif op is C.GROUPREF_EXISTS:
+                for alt in av[1:]:
+                    if alt:
+                        inside(alt, True, fresh, stale)
+
+    def top(sub):
+        for op, av in sub:
+            if op is C.SUBPATTERN:
+                top(av[3])
+            elif op is C.BRANCH:
+                for alt in av[1]:
+                    top(alt)
+            elif op in REPEATS:
+                lo, hi, s2 = av
+                if hi > 1:
+                    fresh, stale = set(), set()
+                    inside(s2, False, fresh, stale)
+                    if fresh or stale:
+                        out.append((fresh - stale, stale))
+                else:
+                    top(s2)
+    top(tree)
+    return out
